@@ -3,6 +3,9 @@ import Tx3Proofs.C07Reduce
 import Tx3Proofs.C07Confluence
 import Tx3Proofs.C07Tx
 import Tx3Proofs.C06Lower
+import Tx3Proofs.C07Lists
+import Tx3Proofs.C07Compiler
+import Tx3Proofs.C06LowerAdhoc
 #print axioms Tx3.Expr.C07_args_fees
 #print axioms Tx3.Expr.C07_args_inputs
 #print axioms Tx3.Expr.C07_fees_inputs
@@ -28,3 +31,12 @@ import Tx3Proofs.C06Lower
 #print axioms Tx3.Tx.mapM_rel
 #print axioms Tx3.C07_tx_reduce_commutes_with_stage
 #print axioms Tx3.Lang.lowerTx_sealed_WF
+#print axioms Tx3.C07_lists_keep_their_length
+#print axioms Tx3.C07_signers_entrywise
+#print axioms Tx3.C07_stage_keeps_lists
+#print axioms Tx3.compilerPass_opFree
+#print axioms Tx3.compilerPass_leaves_none
+#print axioms Tx3.C07_compiler_pass_idempotent
+#print axioms Tx3.reduceOp_answers_opFree
+#print axioms Tx3.C07_cardano_compiler_pass_idempotent
+#print axioms Tx3.Lang.lowerTxFull_sealed_WF
